@@ -50,7 +50,7 @@ def run(run):
     from sa import report
     from . import C10
     sub = report.Run("C10", run.project, run.tier)
-    upd = run.project.fn(P + ".PyramidIO.update_image")
+    upd = common.as_generator_cm(run.project, run.project.fn(P + ".PyramidIO.update_image"))
     run.note_func(upd)
     C10._r1(sub, upd)
     for o in sub.obs:
@@ -326,7 +326,7 @@ def _r4_cleanup(run):
             run.holds("C09.R4", f, cleans[0][1], "clean_lockfiles(self._tiling._tile_levels) after the stage on every normal path")
     # cleanup path == lock path; covers the whole level
     cl = project.fn(P + ".PyramidIO.clean_lockfiles")
-    up = project.fn(P + ".PyramidIO.update_image")
+    up = common.as_generator_cm(project, project.fn(P + ".PyramidIO.update_image"))
     run.note_func(cl, up)
     from . import C10 as c10
     ev = sym.make_evaluator(project, P, [], no_inline=("tile_path", "read_image", "write_image", "update_image"))
